@@ -133,7 +133,9 @@ CLAIMED["C10"]["text"] += _FLAGS % ("Flow::new (initial close reasons, should_se
                                     "c10_code_new, c10_code_new_table, c10_code_try_response")
 CLAIMED["C11"]["text"] += _FLAGS % ("Flow<Await100>::try_read_100 (whole), Flow<RecvResponse>::try_response (the skip of a late 100) and the flags computed by Flow::new",
                                     "c11_code_try_read_100, c11_code_late_100, c11_code_new_flags")
-for _p in ("C03", "C04", "C06", "C07", "C08", "C09", "C10", "C11", "C12"):
+CLAIMED["C17"]["text"] += CODE2 % ("client/amended.rs AmendedRequest::analyze complete -- every rejection rule and the choice of the body's framing; version and method are values, the struct's two header accessors are function parameters",
+                                   "c17_code_analyze: plain equality with the model's analyze for every request: same error variant in the same precedence, same framing, same flags")
+for _p in ("C03", "C04", "C06", "C07", "C08", "C09", "C10", "C11", "C12", "C17"):
     CLAIMED[_p]["technique"] += " + the code's own functions translated to Gallina on every run and proved equivalent to the model"
 
 NOT_YET = {}
